@@ -63,6 +63,7 @@ PROPS = {
             E("h23", "c12", "TestC12_CryptoExhaustive", (4,), (16, 3000)),
             R("h23", "c12", "TestC12_Keys", (10000, 2), (300000, 8, 3000)),
             R("h23", "c12", "TestC12_Index", (4000, 8), (400000, 16, 10000)),
+            R("h23", "c12", "TestC12_Concurrent", (60, 2, 600), (4000, 4, 10000), race=True),
         ],
     },
     "C17": {
